@@ -95,6 +95,19 @@ CHECKS = {
              "65535 refs of one tag is not reached.",
         tech=TECH % ("", "oracle = map reference model incl. enumeration and allocation invariants"),
     ),
+    "C14": dict(
+        profile="readonly", cat="exploration", ref="DESIGN.md section 4 C14",
+        text="Phase A builds a file with the mixed H/V/VS/SD/GR/AN workload (linked-block, external, chunked, "
+             "compressed objects). Phase B freezes every file in the simulated disk, opens read-only through Hopen/"
+             "SDstart (+Vstart/GRstart/ANstart) and runs a random program of reads, inquiries and 51 kinds of "
+             "mutation calls: the disk monitor must see no mutating I/O event (reported at the event), the bytes "
+             "must be identical, every mutator must return its failure value. Phase C opens read-write (also files "
+             "patched to carry an older library version), edits nothing, closes: every object and every raw element "
+             "reads back identical. 6 000 (quick) / 150 000 (thorough) programs.",
+        note="15 mutators that read-only handles accept without touching the disk are recorded known findings with "
+             "stored replays and kept out of the search; the mutator table is the reading of 'would have to write'.",
+        tech=TECH % ("", "oracle = disk-seam mutation monitor + byte compare + failure-value table + differential read-back"),
+    ),
     "C16": dict(
         profile="iofault", cat="fault_enumeration", ref="DESIGN.md section 4 C16",
         text="For each generated H/V/VS/GR/AN program the fault-free I/O trace is enumerated: every stdio event x "
